@@ -55,6 +55,11 @@ func pokeTx(tx *types.Transaction, loc common.Location) {
 			if tx.GetSchnorrSignature() == nil {
 				shape = "types.Transaction/qi-decoded-without-signature"
 			}
+			for _, txo := range tx.TxOut() {
+				if len(txo.Address) < common.AddressLength {
+					shape = "types.Transaction/qi-decoded-with-short-output-address"
+				}
+			}
 		}
 	}()
 	if shape != "" && stepGroup == "" {
@@ -83,6 +88,17 @@ func pokeTxSteps(tx *types.Transaction, loc common.Location) {
 			_ = types.IsConversionTx(tx)
 		}
 	})
+	if tx.Type() == types.QiTxType {
+		// the pool's first look at a Qi transaction (TxPool.addQiTxs) and the gas accounting the
+		// worker and the state processor run on every Qi transaction before touching state
+		step(func() {
+			for _, txo := range tx.TxOut() {
+				common.IsInChainScope(txo.Address, loc)
+			}
+		})
+		step(func() { types.CalculateQiTxGas(tx, 1.0, loc) })
+		step(func() { types.CalculateBlockQiTxGas(tx, 1.0, loc) })
+	}
 	step(func() {
 		if p, err := tx.ProtoEncode(); err == nil {
 			proto.Marshal(p)
